@@ -1,0 +1,12 @@
+//go:build verif
+// +build verif
+
+package bitmap
+
+// Verification hooks (build tag "verif" only): read-only views of unexported state.
+
+// VerifSelect8Lookup returns a copy of the in-byte select lookup table.
+func VerifSelect8Lookup() []uint8 { return append([]uint8{}, select8Lookup[:]...) }
+
+// VerifReclaimed returns the bit index up to which the memory of Words was reclaimed.
+func (tb *TailBitmap) VerifReclaimed() int64 { return tb.reclaimed }
